@@ -60,6 +60,8 @@ Section AlmPanoc.
   Definition ninf : T := n1 / n0.     (* Stats{}.ε = +inf at binary64 *)
 
   (* one inner solve as the outer loop sees it *)
+  (* ir_stop: ALMSolver::stop() sets ALM's own flag and the inner solver's flag in the same call, so the one oracle stop_req serves both:
+     the outer loop reads its flag after the inner solve, i.e. at the cumulative counters the solve hands on *)
   Definition inner (w : counters) (i : nat) (x y Σ : list T) (tol : T) (errz : list T)
       : option (inner_res (T:=T) * list T * result (T:=T) * counters) :=
     let r := panoc (o_psi_grad_full y Σ) (o_psi_yhat y Σ) o_grad_L (o_grad_psi y Σ) Clb Cub l1
@@ -69,11 +71,13 @@ Section AlmPanoc.
     match r with
     | Done o =>
         Some ({| ir_status := alm_status_of (out_status o); ir_eps := out_eps o; ir_err := Some (out_errz o);
-                 ir_y := Some (out_y o); ir_iters := out_iterations o; ir_oot := outer_oot i |},
+                 ir_y := Some (out_y o); ir_iters := out_iterations o; ir_oot := outer_oot i;
+                 ir_stop := stop_req (cadd w (out_cnt o)) |},
               out_x o, r, cadd w (out_cnt o))
     | NotFiniteL L =>
         (* return Stats{.status = NotFinite}: nothing written, ε = inf; one eval_ψ_grad_ψ (and one eval_grad_ψ if L_0 <= 0) happened *)
-        Some ({| ir_status := NotFinite; ir_eps := ninf; ir_err := None; ir_y := None; ir_iters := 0; ir_oot := outer_oot i |},
+        Some ({| ir_status := NotFinite; ir_eps := ninf; ir_err := None; ir_y := None; ir_iters := 0; ir_oot := outer_oot i;
+                 ir_stop := stop_req (cadd w (snd (init_L (o_psi_grad_full y Σ) (o_grad_psi y Σ) (with_opts tol) x))) |},
               x, r, cadd w (snd (init_L (o_psi_grad_full y Σ) (o_grad_psi y Σ) (with_opts tol) x)))
     | OutOfFuel => None
     end.
